@@ -841,7 +841,11 @@ class EnumSerializer(Generic[TEnum, T, T_NP], TypeSerializer[TEnum, T_NP]):
         self._enum_type = enum_type
 
     def write(self, stream: CodedOutputStream, value: TEnum) -> None:
-        self._integer_serializer.write(stream, value.value)
+        if isinstance(value, self._enum_type):
+            self._integer_serializer.write(stream, value.value)
+        else:
+            # the field of a structured array element holds the underlying integer
+            self._integer_serializer.write_numpy(stream, cast(T_NP, value))
 
     def write_numpy(self, stream: CodedOutputStream, value: T_NP) -> None:
         return self._integer_serializer.write_numpy(stream, value)
